@@ -1,6 +1,6 @@
 (* C13 driver.  stdin: "case <id> [ext]", ops, "end".
    ops:  S <instr>*  |  T <dt>  |  X  |  R  |  C <k>  |  D
-   instr: p<m> | w<ms> | T( .. ) | W( .. ) | R | C        (see harness/C13.cpp)
+   instr: p<m> | w<ms> | T( .. ) | W( .. ) | R | C | st<k> | ps | xw<k>.<ms> | xf<k> | xp<k>   (see harness/C13.cpp)
    prints per op  m <op> <prints|-> idle= cls= thr= vm= scr= tmr= ev=0 trk=0 ent=0 tmp=0  (model), then the
    same lines with prefix s (specification).  Cases marked `ext` use instructions outside the
    model: nothing is printed for them. *)
@@ -17,6 +17,15 @@ let rec parse_prog (ws : string list) : instr list * string list =
     end
     else if w = "R" then one IReset
     else if w = "C" then one IRecompile
+    else if w = "ps" then one IPause
+    else if String.length w >= 3 && String.sub w 0 2 = "st" then one (IStore (n_of_int (int_of_string (String.sub w 2 (String.length w - 2)))))
+    else if String.length w >= 3 && String.sub w 0 2 = "xp" then one (IXPause (n_of_int (int_of_string (String.sub w 2 (String.length w - 2)))))
+    else if String.length w >= 3 && String.sub w 0 2 = "xf" then one (IXWaitFrame (n_of_int (int_of_string (String.sub w 2 (String.length w - 2)))))
+    else if String.length w >= 5 && String.sub w 0 2 = "xw" then begin
+      match String.split_on_char '.' (String.sub w 2 (String.length w - 2)) with
+      | [k; d] -> one (IXWait (n_of_int (int_of_string k), n_of_int (int_of_string d)))
+      | _ -> failwith ("bad instruction " ^ w)
+    end
     else if String.length w >= 2 && w.[0] = 'p' then one (IPrint (n_of_int (int_of_string (String.sub w 1 (String.length w - 1)))))
     else if String.length w >= 2 && w.[0] = 'w' then one (IWait (n_of_int (int_of_string (String.sub w 1 (String.length w - 1)))))
     else failwith ("bad instruction " ^ w)
@@ -39,7 +48,7 @@ let obs_str (name : string) (o : obs) : string =
     let d = if o.prints = [] then "-" else String.concat "," (List.map (fun m -> string_of_int (int_of_n m)) o.prints) in
     Printf.sprintf "%s %s idle=%d cls=%d thr=%d vm=%d scr=%d tmr=%d ev=0 trk=0 ent=0 tmp=0%s" name d
       (if o.idle then 1 else 0) (int_of_nat o.ncls) (int_of_nat o.nthr) (int_of_nat o.nvm) (int_of_nat o.nscr)
-      (if o.tmr then 1 else 0) tail
+      (int_of_nat o.ntmr) tail
 let () =
   let lines = read_lines stdin in
   let rec cases ls = match ls with
